@@ -272,7 +272,8 @@ def validate_trace(module, cfgs, trace_path, inv_props, max_rounds=6, timeout=60
                 break
             # relaxed pass accepted the rest: back to strict for what remains is pointless
             break
-        if r.invariant:
+        if r.invariant or (r.property and r.property != "temporal"):
+            r.invariant = r.invariant or r.property
             l = state_l(r)
             idx = (l - 2) if l else None           # l is the next line (1-based) after the step
             line = cur[idx] if idx is not None and 0 <= idx < len(cur) else ""
@@ -295,7 +296,8 @@ def validate_trace(module, cfgs, trace_path, inv_props, max_rounds=6, timeout=60
                 f2.update(extra_files or {})
                 r2 = tlc(module, relaxed, workers=1, timeout=timeout, files=f2, deque=deque)
                 res["tlc"].append(r2)
-                if r2.invariant:
+                if r2.invariant or (r2.property and r2.property != "temporal"):
+                    r2.invariant = r2.invariant or r2.property
                     l2 = state_l(r2)
                     line2 = segl[l2 - 2] if l2 and 0 <= l2 - 2 < len(segl) else line
                     res["findings"].append(dict(kind="invariant", name=r2.invariant,
@@ -315,7 +317,11 @@ def validate_trace(module, cfgs, trace_path, inv_props, max_rounds=6, timeout=60
         break
     else:
         if cur and rounds >= max_rounds:
-            res["inconclusive"].append("gave up after %d validation rounds; %d lines unvalidated" % (rounds, len(cur)))
+            # every round found a violation and dropped its segment; the rest stays unvalidated, which only
+            # matters if nothing was found
+            res["unvalidated_lines"] = len(cur)
+            if not [f for f in res["findings"] if f["kind"] != "unexplained"]:
+                res["inconclusive"].append("gave up after %d validation rounds; %d lines unvalidated" % (rounds, len(cur)))
             cur = []
     res["accepted_segments"] = len(set(seg_of(l) for l in cur)) if not res["inconclusive"] else 0
     res["accepted_lines"] = len(cur) if not res["inconclusive"] else 0
